@@ -26,6 +26,7 @@ func init() {
 func runC05(c *Ctx) {
 	c.load(".", "./runtime", "./safehtml", "./generator")
 	sp := c.pkg("safehtml")
+	quotedArmsBanDelimiters(c, sp, "C05.R1")
 	info := sp.TypesInfo
 
 	// the value sanitisers: functions stored in a map[string]func(string) string, plus the default used by the dispatcher
@@ -1011,4 +1012,68 @@ func cssSanitiserReturns(c *Ctx, tp *packages.Package, fd *ast.FuncDecl, depth i
 		okAll, why = false, "templ.SanitizeCSS no longer reaches safehtml.SanitizeCSS"
 	}
 	return
+}
+
+// quotedArmsBanDelimiters: C05.R1 — a sanitiser arm that passes a QUOTED value through as written accepts it only if
+// the interior contains none of the characters that end a CSS string early: each quote character the arm accepts as an
+// opening delimiter, the backslash (escapes the closing quote) and a line break (ends the string token). The accepted
+// delimiters are read from the HasPrefix tests of the arm's condition, the banned set from the ContainsAny rejection
+// inside it.
+func quotedArmsBanDelimiters(c *Ctx, sp *packages.Package, rule string) {
+	info := sp.TypesInfo
+	n := 0
+	for _, fd := range allFuncDecls(sp) {
+		ord := 0
+		ast.Inspect(fd.Body, func(x ast.Node) bool {
+			is, ok := x.(*ast.IfStmt)
+			if !ok {
+				return true
+			}
+			var quotes []string
+			ast.Inspect(is.Cond, func(y ast.Node) bool {
+				if call, ok := y.(*ast.CallExpr); ok && len(call.Args) == 2 {
+					if fn := calleeOf(info, call); fn != nil && fullName(fn) == "strings.HasPrefix" {
+						if q, isC := constString(info, call.Args[1]); isC && (q == `"` || q == `'`) {
+							quotes = append(quotes, q)
+						}
+					}
+				}
+				return true
+			})
+			if len(quotes) == 0 {
+				return true
+			}
+			// the rejection inside the arm
+			banned := ""
+			found := false
+			ast.Inspect(is.Body, func(y ast.Node) bool {
+				if call, ok := y.(*ast.CallExpr); ok && len(call.Args) == 2 {
+					if fn := calleeOf(info, call); fn != nil && fullName(fn) == "strings.ContainsAny" {
+						if set, isC := constString(info, call.Args[1]); isC {
+							banned += set
+							found = true
+						}
+					}
+				}
+				return true
+			})
+			if !found {
+				return true // not a pass-through arm with an interior test (other rules cover it)
+			}
+			ord++
+			n++
+			var missing []string
+			for _, q := range append(quotes, `\`, "\n") {
+				if !strings.Contains(banned, q) {
+					missing = append(missing, fmt.Sprintf("%q", q))
+				}
+			}
+			c.check(len(missing) == 0, rule, fmt.Sprintf("%s|quoted-arm#%d|interior-bans-its-delimiters", funcKey(sp, fd), ord), c.pos(is.Pos()),
+				fmt.Sprintf("accepted opening quotes %q are all banned inside, with backslash and newline (banned set %q)", quotes, banned),
+				fmt.Sprintf("%s passes a quoted value through as written when it starts with one of %q, but the interior test bans only %q — %s may occur inside: the value closes its own string early and the rest of it is read as CSS (`'a';}body{display:none;x:'b'` ends the declaration and the rule)", fd.Name.Name, quotes, banned, strings.Join(missing, ", ")))
+			return true
+		})
+	}
+	c.count("quoted_pass_through_arms", n)
+	c.floor(rule, 1)
 }
